@@ -173,6 +173,10 @@ func partOrder(spec *ukit.Spec, tier string, res *ux.Result, only *replay) {
 	for _, op := range ops {
 		for i, a := range args[op] {
 			n++
+			if ux.Stop() {
+				res.Capped = true
+				break
+			}
 			ux.Progress(n)
 			if only != nil && (only.Op != op || only.Idx != i) {
 				continue
@@ -199,7 +203,11 @@ func partOrder(spec *ukit.Spec, tier string, res *ux.Result, only *replay) {
 				}
 				return true
 			}}
+			e.Deadline = ux.BatchDeadline()
 			e.All()
+			if e.Stats.Capped {
+				res.Capped = true
+			}
 			res.Evaluations += execs
 			if execs > 1 {
 				res.Nontrivial++
@@ -359,6 +367,10 @@ func partHistory(spec *ukit.Spec, tier string, res *ux.Result, only *replay) {
 		for _, h := range frontier {
 			for ci := range alpha {
 				hist := append(append([]int{}, h...), ci)
+				if ux.Stop() {
+					res.Capped = true
+					return
+				}
 				ux.Progress(len(seen))
 				sch, ok := build(hist)
 				res.Evaluations++
